@@ -83,9 +83,9 @@ Fixpoint unescape (fuel : nat) (l : list N) : option (list N) :=
                       let paired :=
                         if (55296 <=? code) && (code <? 56320) && Nat.ltb 11 (length l) then
                           match r2 with
-                          | 92 :: 117 :: g1 :: g2 :: g3 :: g4 :: r3 =>
+                          | b1 :: u1 :: g1 :: g2 :: g3 :: g4 :: r3 =>
                               let lo := hex4 g1 g2 g3 g4 in
-                              if (56320 <=? lo) && (lo <? 57344)
+                              if (b1 =? 92) && (u1 =? 117) && (56320 <=? lo) && (lo <? 57344)
                               then Some (N.lor (N.shiftl (code - 55296) 10) (lo - 56320) + 65536, r3)
                               else None
                           | _ => None
